@@ -113,18 +113,151 @@ theorem lt2_trans {f : Str → Str} {a b c : Str} (h1 : lt2 f a b = true) (h2 : 
       · simp [e3]; exact strLt_trans h1 h2
 
 theorem pathLt_eq (a b : Str) : pathLt a b = lt2 lowerL a b := rfl
-theorem hostBefore_eq (a b : Str) : hostBefore a b = lt2 reverseHostPort b a := by
-  unfold hostBefore lt2
-  by_cases e : reverseHostPort a = reverseHostPort b
-  · simp [e]
-  · have e' : ¬ reverseHostPort b = reverseHostPort a := fun x => e x.symm
+/-! ### `ltBy`: the lexicographic order by a rank of the characters is a strict order -/
+
+theorem ltBy_irrefl (k : Char → Nat) (a : Str) : ltBy k a a = false := by
+  induction a with
+  | nil => rfl
+  | cons x xs ih => simp [ltBy, ih]
+
+theorem ltBy_asymm {k : Char → Nat} {a b : Str} (h : ltBy k a b = true) : ltBy k b a = false := by
+  induction a generalizing b with
+  | nil => cases b <;> simp_all [ltBy]
+  | cons x xs ih =>
+    cases b with
+    | nil => simp [ltBy] at h
+    | cons y ys =>
+      simp only [ltBy] at h ⊢
+      by_cases h1 : k x < k y
+      · have h2 : ¬ k y < k x := by omega
+        simp [h1, h2]
+      · by_cases h2 : k y < k x
+        · simp [h1, h2] at h
+        · simp [h1, h2] at h ⊢
+          exact ih h
+
+theorem ltBy_trans {k : Char → Nat} {a b c : Str} (h1 : ltBy k a b = true) (h2 : ltBy k b c = true) :
+    ltBy k a c = true := by
+  induction a generalizing b c with
+  | nil =>
+    cases b with
+    | nil => simp [ltBy] at h1
+    | cons y ys => cases c with
+      | nil => simp [ltBy] at h2
+      | cons z zs => simp [ltBy]
+  | cons x xs ih =>
+    cases b with
+    | nil => simp [ltBy] at h1
+    | cons y ys =>
+      cases c with
+      | nil => simp [ltBy] at h2
+      | cons z zs =>
+        simp only [ltBy] at h1 h2 ⊢
+        by_cases hxy : k x < k y
+        · by_cases hyz : k y < k z
+          · have : k x < k z := by omega
+            simp [this]
+          · by_cases hzy : k z < k y
+            · simp [hyz, hzy] at h2
+            · have : k x < k z := by omega
+              simp [this]
+        · by_cases hyx : k y < k x
+          · simp [hxy, hyx] at h1
+          · simp [hxy, hyx] at h1
+            by_cases hyz : k y < k z
+            · have : k x < k z := by omega
+              simp [this]
+            · by_cases hzy : k z < k y
+              · simp [hyz, hzy] at h2
+              · simp [hyz, hzy] at h2
+                have e1 : ¬ k x < k z := by omega
+                have e2 : ¬ k z < k x := by omega
+                simp [e1, e2]
+                exact ih h1 h2
+
+/-- a common prefix does not matter -/
+theorem ltBy_append_left (k : Char → Nat) (p a b : Str) : ltBy k (p ++ a) (p ++ b) = ltBy k a b := by
+  induction p with
+  | nil => rfl
+  | cons x xs ih => simp [ltBy, ih]
+
+/-! ### lexicographic: by a key under one strict order first, by another strict order second -/
+
+def lexBy (ltK : Str → Str → Bool) (f : Str → Str) (ltR : Str → Str → Bool) (a b : Str) : Bool :=
+  if f a != f b then ltK (f a) (f b) else ltR a b
+
+theorem lexBy_asymm {ltK ltR : Str → Str → Bool} {f : Str → Str}
+    (hK : ∀ a b, ltK a b = true → ltK b a = false) (hR : ∀ a b, ltR a b = true → ltR b a = false)
+    {a b : Str} (h : lexBy ltK f ltR a b = true) : lexBy ltK f ltR b a = false := by
+  unfold lexBy at h ⊢
+  by_cases e : f a = f b
+  · simp [e] at h ⊢; exact hR _ _ h
+  · have e' : ¬ f b = f a := fun x => e x.symm
+    simp [e] at h; simp [e']; exact hK _ _ h
+
+theorem lexBy_trans {ltK ltR : Str → Str → Bool} {f : Str → Str}
+    (hK : ∀ a b, ltK a b = true → ltK b a = false)
+    (hKt : ∀ a b c, ltK a b = true → ltK b c = true → ltK a c = true)
+    (hRt : ∀ a b c, ltR a b = true → ltR b c = true → ltR a c = true)
+    {a b c : Str} (h1 : lexBy ltK f ltR a b = true) (h2 : lexBy ltK f ltR b c = true) :
+    lexBy ltK f ltR a c = true := by
+  unfold lexBy at h1 h2 ⊢
+  by_cases e1 : f a = f b
+  · by_cases e2 : f b = f c
+    · have e3 : f a = f c := e1.trans e2
+      simp [e1] at h1; simp [e2] at h2; simp [e3]; exact hRt _ _ _ h1 h2
+    · have e3 : ¬ f a = f c := by rw [e1]; exact e2
+      simp [e2] at h2; simp [e3]; rw [e1]; exact h2
+  · by_cases e2 : f b = f c
+    · have e3 : ¬ f a = f c := by rw [← e2]; exact e1
+      simp [e1] at h1; simp [e3]; rw [← e2]; exact h1
+    · simp [e1] at h1; simp [e2] at h2
+      by_cases e3 : f a = f c
+      · rw [e3] at h1; have := hK _ _ h1; rw [this] at h2; cases h2
+      · simp [e3]; exact hKt _ _ _ h1 h2
+
+/-- the order of the sort as a three-level lexicographic order, read from the right: `hostBefore a b` says
+`b` is below `a` by (reversed host part under `lessSpecificHost`, port, key) -/
+def hostLt : Str → Str → Bool :=
+  lexBy lessSpecificHost (fun k => (revParts k).1) (lexBy strLt (fun k => (revParts k).2) strLt)
+
+theorem hostBefore_eq (a b : Str) : hostBefore a b = hostLt b a := by
+  unfold hostBefore hostLt lexBy
+  by_cases e : (revParts a).1 = (revParts b).1
+  · have e' : (revParts b).1 = (revParts a).1 := e.symm
+    by_cases e2 : (revParts a).2 = (revParts b).2
+    · have e2' : (revParts b).2 = (revParts a).2 := e2.symm
+      simp [e, e2]
+    · have e2' : ¬ (revParts b).2 = (revParts a).2 := fun x => e2 x.symm
+      simp [e, e2, e2']
+  · have e' : ¬ (revParts b).1 = (revParts a).1 := fun x => e x.symm
     simp [e, e']
 
+def portLt : Str → Str → Bool := lexBy strLt (fun k => (revParts k).2) strLt
+
+theorem portLt_asymm (a b : Str) (h : portLt a b = true) : portLt b a = false :=
+  lexBy_asymm (ltK := strLt) (ltR := strLt) (fun _ _ h => strLt_asymm h) (fun _ _ h => strLt_asymm h) h
+
+theorem portLt_trans (a b c : Str) (h1 : portLt a b = true) (h2 : portLt b c = true) : portLt a c = true :=
+  lexBy_trans (ltK := strLt) (ltR := strLt) (fun _ _ h => strLt_asymm h) (fun _ _ _ h1 h2 => strLt_trans h1 h2)
+    (fun _ _ _ h1 h2 => strLt_trans h1 h2) h1 h2
+
+theorem hostLt_eq : hostLt = lexBy lessSpecificHost (fun k => (revParts k).1) portLt := rfl
+
+theorem hostLt_asymm {a b : Str} (h : hostLt a b = true) : hostLt b a = false := by
+  rw [hostLt_eq] at h ⊢
+  exact lexBy_asymm (ltK := lessSpecificHost) (ltR := portLt) (fun _ _ h => ltBy_asymm h) portLt_asymm h
+
+theorem hostLt_trans {a b c : Str} (h1 : hostLt a b = true) (h2 : hostLt b c = true) : hostLt a c = true := by
+  rw [hostLt_eq] at h1 h2 ⊢
+  exact lexBy_trans (ltK := lessSpecificHost) (ltR := portLt) (fun _ _ h => ltBy_asymm h)
+    (fun _ _ _ h1 h2 => ltBy_trans h1 h2) portLt_trans h1 h2
+
 theorem hostBefore_asymm {a b : Str} (h : hostBefore a b = true) : hostBefore b a = false := by
-  rw [hostBefore_eq] at h ⊢; exact lt2_asymm h
+  rw [hostBefore_eq] at h ⊢; exact hostLt_asymm h
 theorem hostBefore_trans {a b c : Str} (h1 : hostBefore a b = true) (h2 : hostBefore b c = true) :
     hostBefore a c = true := by
-  rw [hostBefore_eq] at h1 h2 ⊢; exact lt2_trans h2 h1
+  rw [hostBefore_eq] at h1 h2 ⊢; exact hostLt_trans h2 h1
 
 /-! ### generic insertion sort -/
 
